@@ -456,7 +456,13 @@ pub fn gen_input(rng: &mut Rng, pool: &Pool, mask: GenMask) -> (String, &'static
             }
             t
         }
-        5 => grid(rng, UNICODE_CHARS),
+        5 => {
+            if rng.chance(1, 2) {
+                grid(rng, UNICODE_CHARS)
+            } else {
+                random_unicode(rng)
+            }
+        }
         6 => text_snippet(rng),
         7 => legend_snippet(rng, pool),
         _ => rng.pick(TINY).to_string(),
@@ -560,4 +566,36 @@ pub fn pad_to(text: &str, size: usize) -> String {
         s.push(' ');
     }
     s
+}
+
+/// Lines mixing drawing characters with random narrow and wide non-ASCII
+/// characters from several scripts (per-character tables and caches).
+pub fn random_unicode(rng: &mut Rng) -> String {
+    const NARROW: &[(u32, u32)] = &[(0xA1, 0xFF), (0x391, 0x3C9), (0x410, 0x44F), (0x2500, 0x257F), (0x2190, 0x21FF), (0x100, 0x17F)];
+    const WIDE: &[(u32, u32)] = &[(0x4E00, 0x9FFF), (0x3041, 0x3096), (0xAC00, 0xD7A3), (0xFF01, 0xFF5E), (0x30A1, 0x30FA)];
+    let mut out = String::new();
+    for _ in 0..rng.urange(1, 6) {
+        let mut line = String::new();
+        for _ in 0..rng.urange(2, 30) {
+            match rng.below(10) {
+                0..=2 => line.push(' '),
+                3..=4 => line.push_str(*rng.pick(LINE_CHARS)),
+                5..=7 => {
+                    let (lo, hi) = *rng.pick(NARROW);
+                    if let Some(c) = char::from_u32(rng.range(lo as u64, hi as u64) as u32) {
+                        line.push(c);
+                    }
+                }
+                _ => {
+                    let (lo, hi) = *rng.pick(WIDE);
+                    if let Some(c) = char::from_u32(rng.range(lo as u64, hi as u64) as u32) {
+                        line.push(c);
+                    }
+                }
+            }
+        }
+        out.push_str(line.trim_end());
+        out.push('\n');
+    }
+    out
 }
